@@ -246,3 +246,33 @@ def text_variant(lines, rng, p=0.15):
     if kind in ("crlf", "both"):
         lines = [l + "\r" for l in lines]
     return lines, kind
+
+
+def _pad_tag(line):
+    used = {f.split(":", 1)[0] for f in line.split("\t")[12:]}
+    return next(t for t in ("zp", "yp", "xp", "wp", "vp", "up") if t not in used)
+
+
+def align_records(lines, unit=1 << 20, min_len=0):
+    """Pads records (one more Z field of x's, before a trailing cg:Z field if there is one... simply
+    appended) so that every multiple of `unit` bytes of the file falls exactly behind a line
+    terminator: readers that take the decompressed stream in blocks of 2**k bytes then see blocks that
+    end exactly on a record end. Records are ASCII and shorter than 2000 bytes here."""
+    out = []
+    pos = 0
+    nxt = unit
+    hits = 0
+    for line in lines:
+        if len(line) < min_len:
+            line = line + f"\t{_pad_tag(line)}:Z:" + "x" * max(1, min_len - len(line) - 6)
+        n = len(line.encode())
+        room = nxt - pos - 1  # bytes this line may take so that its terminator is the last byte before nxt
+        if room <= n + 6 + 2100:
+            if room >= n + 6:
+                line = line + f"\t{_pad_tag(line)}:Z:" + "x" * (room - n - 6)
+                n = room
+                hits += 1
+            nxt += unit * (1 + (pos + n + 1 - nxt) // unit) if pos + n + 1 > nxt else unit
+        out.append(line)
+        pos += n + 1
+    return out, hits
